@@ -5,7 +5,7 @@ from .. import land
 
 LEVEL = 'fault_enumeration'
 ENGINE = 'STREAM'
-TECHNIQUE = 'exhaustive enumeration of client faults against a real server: a recorded well-formed client byte stream per request type cut at every enumerated offset with FIN or RST, every step of the control-channel handshake, garbage payloads, and ordered pairs of faults, each with a healthy bystander worker running on the same server'
+TECHNIQUE = 'exhaustive enumeration of client faults against a real server: a recorded well-formed client byte stream per request type cut at every enumerated offset with FIN or RST, every step of the control-channel handshake, garbage payloads, ordered pairs of faults, and the header cuts repeated against a server configured to stop on a None request, each with a healthy bystander worker running on the same server'
 LEVEL_TEXT = ('for each request type (worker, persistent worker, context create, context delete, worker in context) the real client byte stream is recorded from a real client of the same server instance and replayed through a raw socket, cut at each offset of the cut set (quick: both headers, the first/last 32 bytes of the payload, every 64th byte; thorough: every offset) and ended with FIN or RST; plus the control-channel steps; oracle after every fault: the server process is alive, a fresh worker round trip succeeds, the bystander worker is alive and later delivers its correct result')
 LEVEL_NOTE = 'a client that stays connected but silent is outside the property (crash = the connection ends); whether the faulty client own child keeps running is not judged'
 
